@@ -134,6 +134,7 @@ def _worker(args):
             fail = _run_subcheck(sc, rec, tier, seed, shard, nshards, t_end)
         if fail is not None:
             out["status"] = "violation"
+            out["history"] = jsonable(getattr(_run_subcheck, "last_history", [])[:-1][-2048:])
             out["case"] = jsonable(fail[0])
             out["msg"] = fail[1].msg
             out["details"] = jsonable(fail[1].details)
@@ -150,7 +151,7 @@ def _worker(args):
 
 def _run_subcheck(sc, rec, tier, seed, shard, nshards, t_end):
     n_total = sc.n[tier]
-    state = {"fail": None, "skipped": 0}
+    state = {"fail": None, "skipped": 0, "history": []}
 
     def body(case):
         if time.time() > t_end:
@@ -164,6 +165,7 @@ def _run_subcheck(sc, rec, tier, seed, shard, nshards, t_end):
                 state["first"] = h
             if state["first"] == h:
                 return
+        state["history"].append(case)
         rec.begin(case)
         import signal
 
@@ -206,6 +208,7 @@ def _run_subcheck(sc, rec, tier, seed, shard, nshards, t_end):
         if state["skipped"]:
             rec.inconc("budget_exhausted_cases_skipped")
             rec.inconclusive["budget_exhausted_cases_skipped"] = state["skipped"]
+        _run_subcheck.last_history = state["history"]
         return state["fail"]
 
     import hypothesis
@@ -243,6 +246,7 @@ def _run_subcheck(sc, rec, tier, seed, shard, nshards, t_end):
             raise HarnessError(f"flaky: {e}")
     if state["skipped"]:
         rec.inconclusive["budget_exhausted_cases_skipped"] = state["skipped"]
+    _run_subcheck.last_history = state["history"]
     return state["fail"]
 
 
@@ -270,9 +274,15 @@ def replay_case(pid, name, case, exclude_known=False):
 
 
 def _replay_worker(args):
-    pid, name, case = args
+    pid, name, case = args[:3]
+    prefix = args[3] if len(args) > 3 else []
     try:
         _import_cuqi()
+        for pc in prefix:      # earlier cases of the same process (a failure may depend on state the library keeps between calls)
+            try:
+                replay_case(pid, name, pc)
+            except Exception:
+                pass
         v = replay_case(pid, name, case)
         if v is None:
             return ("ok", None, None)
@@ -281,14 +291,17 @@ def _replay_worker(args):
         return ("harness-error", f"{type(e).__name__}: {e}", traceback.format_exc()[-4000:])
 
 
-def _write_replay(pid, name, case, msg, details, seed, tier, tags=None):
+def _write_replay(pid, name, case, msg, details, seed, tier, tags=None, prefix=None):
     d = os.path.join(os.environ.get("VERIF_VIOL_DIR") or os.path.join(ROOT, "violations"), pid)
     os.makedirs(d, exist_ok=True)
     path = os.path.join(d, f"{name.replace('/', '_')}-seed{seed}-{case_hash(case)}.json")
     with open(path, "w") as f:
-        json.dump({"property": pid, "subcheck": name, "case": case, "message": msg,
-                   "details": details, "tags": tags, "seed": seed, "tier": tier,
-                   "repo": _repo_root()}, f, indent=1)
+        doc = {"property": pid, "subcheck": name, "case": case, "message": msg,
+               "details": details, "tags": tags, "seed": seed, "tier": tier,
+               "repo": _repo_root()}
+        if prefix:
+            doc["prefix"] = prefix      # cases to run first in the same process (library state kept between calls)
+        json.dump(doc, f, indent=1)
     return path
 
 
@@ -327,7 +340,7 @@ def main(argv=None):
         with open(a.replay) as f:
             rp = json.load(f)
         with ctx.Pool(1) as pool:
-            st, msg, det = pool.apply(_replay_worker, ((pid, rp["subcheck"], rp["case"]),))
+            st, msg, det = pool.apply(_replay_worker, ((pid, rp["subcheck"], rp["case"], rp.get("prefix") or []),))
         if st == "violation":
             print(f"replay: {rp['subcheck']}: {msg}")
             print(f"VIOLATION property={pid} replay={a.replay}")
@@ -420,9 +433,23 @@ def main(argv=None):
             # confirm through the plain replay path in a fresh process
             with ctx.Pool(1) as pool:
                 st, msg, det = pool.apply(_replay_worker, ((pid, r["subcheck"], r["case"]),))
-            path = _write_replay(pid, r["subcheck"], r["case"], r["msg"], r["details"], seed, tier, r.get("tags"))
+            prefix = []
+            if st != "violation" and r.get("history"):
+                # not reproducible from the single case: the library may keep state between calls (class-level caches, module
+                # globals). Replay with the shortest suffix of the cases this process ran before that reproduces it.
+                hist = r["history"]
+                for klen in (1, 4, 16, 64, 256, len(hist)):
+                    cand = hist[-klen:]
+                    with ctx.Pool(1) as pool:
+                        st2, msg2, det2 = pool.apply(_replay_worker, ((pid, r["subcheck"], r["case"], cand),))
+                    if st2 == "violation":
+                        st, prefix = st2, cand
+                        break
+                    if klen >= len(hist):
+                        break
+            path = _write_replay(pid, r["subcheck"], r["case"], r["msg"], r["details"], seed, tier, r.get("tags"), prefix=prefix)
             if st == "violation":
-                violations.append((r["subcheck"], path, r["msg"]))
+                violations.append((r["subcheck"], path, r["msg"] + (f" [needs the {len(prefix)} preceding case(s) of the same process: state kept by the library between calls]" if prefix else "")))
             else:
                 harness_errors.append(f"{r['subcheck']}: failure did not reproduce through plain replay ({st}: {msg}); case at {path}")
         elif r["status"] == "harness-error":
